@@ -345,6 +345,9 @@ class Dimension(metaclass=_Interned):
         return exponents + (0,) * missing if missing > 0 else exponents
 
     def __setstate__(self, state: Tuple[None, Dict[str, Any]]) -> None:
+        if self._initialized:
+            # already interned here: not rewound to what it was when it was pickled
+            return
         _, slots = state
         for name, value in slots.items():
             setattr(self, name, self._widened(value) if name == "exponents" else value)
@@ -716,6 +719,14 @@ class Prefix(metaclass=_Interned):
 
     # Pickle support
 
+    def __setstate__(self, state: Tuple[None, Dict[str, Any]]) -> None:
+        if self._initialized:
+            # already interned here: not rewound to what it was when it was pickled
+            return
+        _, slots = state
+        for name, value in slots.items():
+            setattr(self, name, value)
+
     def __getnewargs_ex__(self) -> Tuple[Tuple[int, Numeric], Dict[str, Any]]:
         return (self.base, self.exponent), {}
 
@@ -1063,6 +1074,14 @@ class Unit(metaclass=_Interned):
         return self.symbols[0] if self.symbols else None
 
     # Pickle support
+
+    def __setstate__(self, state: Tuple[None, Dict[str, Any]]) -> None:
+        if self._initialized:
+            # already interned here: not rewound to what it was when it was pickled
+            return
+        _, slots = state
+        for name, value in slots.items():
+            setattr(self, name, value)
 
     def __getnewargs_ex__(
         self,
